@@ -133,3 +133,9 @@ def threshold(vc):
 # nothing to send, because the pool's callback gives one back.  C12's contract, re-discharged here.
 from contracts import c12_pool_accounting as _C12
 harness('C13', 'keyspace-switch-keeps-the-in-flight-count-exact', functions=['cassandra.connection.Connection.set_keyspace_async'], native='contracts.native.c12:replay')(_C12.ks_accounting)
+
+# "closed only once nothing is in flight on it" is decided from Connection.in_flight and the orphan set: the connection side of that accounting (a late
+# response releases its orphaned stream exactly once; a frame for a stream that is neither registered nor orphaned releases nothing) is C09's contract on
+# Connection.process_msg, re-discharged here.
+from contracts import c09_stream_ids as _C09
+harness('C13', 'late-response-accounting', functions=['cassandra.connection.Connection.process_msg'], native='contracts.native.c09:replay')(_C09.process)
